@@ -4,7 +4,12 @@ INVARIANT OutSorted
 INVARIANT SinksExist
 INVARIANT GraphShape
 INVARIANT CancelledIsBare
+INVARIANT NoPollAfterFire
 INVARIANT Bounded
+INVARIANT NoForceDuringCollect
+INVARIANT ExactlyOncePerMatch
+INVARIANT ErrorHasContext
 INVARIANT Reported
 PROPERTY AttrsStable
+PROPERTY HistoryKeepsGraph
 PROPERTY TerminalAbsorbing
